@@ -246,14 +246,38 @@ impl CheckpointManager {
 
     /// Rollback to a checkpoint by ID or name.
     pub async fn rollback(&self, id_or_name: &str, store: &TensorStore) -> Result<()> {
-        let state = {
-            let blob = self.blob.lock().await;
-            CheckpointStorage::load(id_or_name, &blob).await?
-        };
+        let blob = self.blob.lock().await;
+        let state = CheckpointStorage::load(id_or_name, &blob).await?;
+
+        // The checkpoints are artifacts of a blob store that usually lives in the very store
+        // being rolled back. Its image was taken before this checkpoint's own artifact was
+        // written, so restoring it would take the checkpoint list back in time: the target
+        // and every later checkpoint would vanish and purged ones reappear. Carry the
+        // current checkpoints across the restore (oldest first, to keep their order).
+        let before = CheckpointStorage::list(&blob).await?;
+        let mut kept = Vec::with_capacity(before.len());
+        for info in before.iter().rev() {
+            kept.push(CheckpointStorage::load(&info.id, &blob).await?);
+        }
 
         store
             .restore_from_bytes(&state.store_snapshot)
             .map_err(|e| CheckpointError::Snapshot(e.to_string()))?;
+
+        let after = CheckpointStorage::list(&blob).await?;
+        let same_artifacts = after.len() == before.len()
+            && after
+                .iter()
+                .zip(&before)
+                .all(|(a, b)| a.artifact_id == b.artifact_id);
+        if !same_artifacts {
+            for info in &after {
+                CheckpointStorage::delete(&info.artifact_id, &blob).await?;
+            }
+            for checkpoint in &kept {
+                CheckpointStorage::store(checkpoint, &blob).await?;
+            }
+        }
 
         Ok(())
     }
